@@ -79,6 +79,9 @@ def run(ctx):
             k_ = SP.check_tag_by_scheme(ctx, "E2.tag-by-scheme", P, f, sinks, -1, purpose="sig")
             ctx.ob("E2.tag-by-scheme", fk + "/all-schemes", k_ >= 3, "%s selects the tag for %s by the scheme in %d of 3 schemes" % (fk, sinks[0], k_), where=where(f))
             nt += k_
+    from . import codecs as C_
+
+    C_.check_serialize_total(ctx, P)
     # constructions
     K.check_keygen(_Sub(ctx, ("E5.keygen.hash", "E5.keygen.salt", "E5.keygen.ikm", "E5.keygen.info", "E5.keygen.len", "E5.keygen.prk", "E5.keygen.okm", "E5.keygen.ret", "E5.keygen.route", "E5.keygen.anchor")), P, rule="E5.keygen")
     PR.check_compute_y(ctx, "E5.challenge", P)
